@@ -8,6 +8,7 @@ import (
 	"sort"
 	"strings"
 	"sync"
+	"sync/atomic"
 	"time"
 
 	"govc/internal/vc"
@@ -41,6 +42,39 @@ type oblResult struct {
 	Ms      int64
 	Solver  string
 	FailIdx int
+	refuted int32 // set once one path query has a model: the remaining queries of the obligation are skipped
+}
+
+// variantsOf lists the formulations of one path query: light ones first (hypotheses in the goal's cone of
+// influence; opaque predicates without, or with only the adjacent, definitions), then the full query and
+// its alternative goal formulation.
+func variantsOf(res *vc.FuncResult, q vc.PathQuery) []vc.Variant {
+	var vs []vc.Variant
+	if len(q.PC) > 40 {
+		s4 := res.SlicedQuery(q, 4)
+		s2 := res.SlicedQuery(q, 2)
+		if c := vc.CloseOpaque(s4, false); c != s4 {
+			vs = append(vs, vc.Variant{Name: "sliced-closed", Query: c})
+			vs = append(vs, vc.Variant{Name: "sliced", Query: s2})
+			vs = append(vs, vc.Variant{Name: "sliced-narrow", Query: vc.CloseOpaque(s4, true)})
+		} else {
+			vs = append(vs, vc.Variant{Name: "sliced", Query: s2})
+		}
+		if s4 != s2 {
+			vs = append(vs, vc.Variant{Name: "sliced4", Query: s4})
+		}
+	}
+	full := res.Query(q, false)
+	if c := vc.CloseOpaque(full, true); c != full && len(q.PC) <= 40 {
+		vs = append(vs, vc.Variant{Name: "narrow", Query: c})
+	}
+	vs = append(vs, vc.Variant{Name: "full", Query: full, Full: true})
+	if q.Alt != "" {
+		q2 := q
+		q2.Goal = q.Alt
+		vs = append(vs, vc.Variant{Name: "alt", Query: res.Query(q2, false), Full: true})
+	}
+	return vs
 }
 
 func solveAll(results []*vc.FuncResult, s *vc.Solver, workers int) []*oblResult {
@@ -69,38 +103,15 @@ func solveAll(results []*vc.FuncResult, s *vc.Solver, workers int) []*oblResult 
 			for j := range ch {
 				q := j.or.Obl.Queries[j.qi]
 				var a vc.Answer
-				if len(q.PC) > 40 {
-					// large context: first try to prove the goal from the hypotheses in its cone of influence;
-					// with opaque spec predicates, first without their definitions (a proof from fewer
-					// hypotheses is still a proof)
-					sq := j.res.SlicedQuery(q, 4)
-					if cq := vc.CloseOpaque(sq, false); cq != sq {
-						a = s.SolveQuick(cq, 5)
-						if a.Result != "unsat" {
-							a = s.SolveQuick(vc.CloseOpaque(sq, true), 10)
-						}
-						if a.Result == "unsat" {
-							j.or.Answers[j.qi] = a
-							continue
-						}
-					}
-					a = s.SolveQuick(j.res.SlicedQuery(q, 2), 6)
-					if a.Result != "unsat" {
-						a = s.SolveQuick(j.res.SlicedQuery(q, 4), 10)
-					}
-					if a.Result == "unsat" {
-						j.or.Answers[j.qi] = a
-						continue
-					}
+				if atomic.LoadInt32(&j.or.refuted) != 0 {
+					j.or.Answers[j.qi] = vc.Answer{Result: "skipped", Solver: "none"}
+					continue
 				}
-				if q.Alt != "" {
-					q2 := q
-					q2.Goal = q.Alt
-					a = s.SolveEither(j.res.Query(q, false), j.res.Query(q2, false))
-				} else {
-					a = s.Solve(j.res.Query(q, false))
-				}
+				a = s.SolvePortfolio(variantsOf(j.res, q))
 				j.or.Answers[j.qi] = a
+				if a.Result == "sat" {
+					atomic.StoreInt32(&j.or.refuted, 1)
+				}
 			}
 		}()
 	}
@@ -109,6 +120,41 @@ func solveAll(results []*vc.FuncResult, s *vc.Solver, workers int) []*oblResult 
 	}
 	close(ch)
 	wg.Wait()
+	// second chance for queries that ran out of time while the machine was saturated: rerun them a few
+	// at a time with twice the time limit (a `sat` answer is final and is not retried)
+	{
+		var again []job
+		for _, j := range jobs {
+			r := j.or.Answers[j.qi].Result
+			if r != "unsat" && r != "sat" && r != "skipped" && atomic.LoadInt32(&j.or.refuted) == 0 {
+				again = append(again, j)
+			}
+		}
+		if len(again) > 0 && len(again) <= 64 {
+			saved := s.Timeout
+			s.Timeout = 2 * saved
+			ch2 := make(chan job)
+			var wg2 sync.WaitGroup
+			for w := 0; w < 4; w++ {
+				wg2.Add(1)
+				go func() {
+					defer wg2.Done()
+					for j := range ch2 {
+						q := j.or.Obl.Queries[j.qi]
+						a := s.SolvePortfolio(variantsOf(j.res, q))
+						a.Solver += "/retry"
+						j.or.Answers[j.qi] = a
+					}
+				}()
+			}
+			for _, j := range again {
+				ch2 <- j
+			}
+			close(ch2)
+			wg2.Wait()
+			s.Timeout = saved
+		}
+	}
 	for _, or := range out {
 		or.Verdict = "proved"
 		solvers := map[string]bool{}
@@ -118,6 +164,9 @@ func solveAll(results []*vc.FuncResult, s *vc.Solver, workers int) []*oblResult 
 			if a.Result != "unsat" && or.Verdict == "proved" {
 				or.Verdict = "failed"
 				or.FailIdx = i
+			}
+			if a.Result == "sat" && or.Answers[or.FailIdx].Result != "sat" {
+				or.FailIdx = i // prefer the query with a model
 			}
 		}
 		var ss []string
